@@ -98,6 +98,10 @@ impl<VM: VMBinding, B: Region> BlockPageResource<VM, B> {
         required_pages: usize,
         tls: VMThread,
     ) -> Result<PRAllocResult, PRAllocFail> {
+        #[cfg(feature = "mmtk_verif")]
+        crate::verif::gcfix::bpr_slow_enter();
+        #[cfg(feature = "mmtk_verif")]
+        crate::verif::gc::yp(crate::verif::gc::Site::BprSlowBeforeLock);
         let _guard = self.sync.lock().unwrap();
         // Retry fast allocation
         if let Some(block) = self.block_queue.pop() {
@@ -176,6 +180,12 @@ impl<VM: VMBinding, B: Region> BlockPageResource<VM, B> {
     pub fn flush_all(&self) {
         self.block_queue.flush_all()
         // TODO: For 32-bit space, we may want to free some contiguous chunks.
+    }
+
+    /// Verification accessor: blocks currently in the block pool.
+    #[cfg(feature = "mmtk_verif")]
+    pub fn verif_pool_len(&self) -> usize {
+        self.block_queue.len()
     }
 }
 
